@@ -109,6 +109,15 @@ func c09Ops() []c09op {
 			err0 := w.gen.WriteFile(&buf, "f0.soy")
 			return buf.String() + errClass(err1) + errClass(err0)
 		}},
+		{"compile a bundle with syntax errors", func(w *c09world) string {
+			// independent bundles that are rejected: the error paths of scanner and parser
+			var out []string
+			for _, src := range []string{"{namespace bad}\n{template .t}\n{let foo: 1 /}\n", "{namespace bad}\n{template .t}\n{$a[0}"} {
+				_, err := soy.NewBundle().AddTemplateString("bad.soy", src).Compile()
+				out = append(out, errClass(err))
+			}
+			return strings.Join(out, "|")
+		}},
 		{"compile an independent bundle and render it", func(w *c09world) string {
 			// its globals come from text (each line is evaluated as an expression)
 			g, gerr := soy.ParseGlobals(strings.NewReader("IND_A = 1 + 2\nIND_B = 'x' + 'y'\n"))
